@@ -444,6 +444,7 @@ func init() {
 		fmt.Sscan(os.Args[2], &seed)
 		fmt.Sscan(os.Args[3], &n)
 		fmt.Sscan(os.Args[4], &min)
+		dilithium.VerifCountAttempts = true
 		rng := rt.NewRand(seed, "C07search")
 		for done := 0; done < n; {
 			ks := rng.Seed48()
